@@ -270,7 +270,8 @@ def foreign_side(ctx, blobs):
     """the independent signer: foreign keys, foreign encoding choices; PGPy must verify."""
     pgpy = import_pgpy()
     ev = []
-    kinds = ['ed25519', 'rsa2048', 'p256', 'p384'] + ([] if ctx.quick else ['p521', 'dsa2048', 'rsa3072'])
+    # 'rsa2048#3': an RSA key with the deprecated sign-only algorithm id 3 (RFC 4880 9.1 / 13.5: not generated any more, still accepted)
+    kinds = ['ed25519', 'rsa2048', 'p256', 'p384', 'rsa2048#3'] + ([] if ctx.quick else ['p521', 'dsa2048', 'rsa3072', 'k256'])
     target = K.new_key('ed25519', name='Target', email='target@x.org')
     tblob = bytes(target.pubkey)
     tpub = pgpy.PGPKey.from_blob(tblob)[0]
@@ -283,7 +284,17 @@ def foreign_side(ctx, blobs):
         kblob = build.transferable_key(fk, [uid], subkeys=[(sk, 0x02)])
         with warnings.catch_warnings():
             warnings.simplefilter('ignore')
-            pub = pgpy.PGPKey.from_blob(kblob)[0]
+            try:
+                pub = pgpy.PGPKey.from_blob(kblob)[0]
+                if len(pub.subkeys) != 1 or len(pub.userids) != 1:
+                    raise ValueError('components lost on import')
+            except Exception:
+                # a well-formed transferable key of the independent encoder is refused as a whole: reported through its self-certification
+                ev.append({'k': 'foreign', 'sig': blobs.add(next(r for t_, b, r in build.read_packets(kblob) if t_ == 2)),
+                           'subj': sigs.subj_cert(blobs, kblob, fk.fingerprint.hex(), uid),
+                           'signed_over': blobs.add(build.subject_octets(0x13, primary=fk.pub_body, uid=uid) + _region_trailer(next(b for t_, b, r in build.read_packets(kblob) if t_ == 2))),
+                           'clause': 'C02.indep-signer', 'label': '%s whole foreign key cannot be loaded completely' % kind, 'accepted': True, 'result': 'raised'})
+                continue
         hashes = ['sha256', 'sha512', 'sha384', 'sha224', 'sha1', 'md5'] + (['ripemd160'] if 'ripemd160' in build.HASH_CLS else [])
         variants = [dict(), dict(issuer_in='hashed'), dict(fmt='old'), dict(form=5), dict(pad_mpi=1), dict(created=None, extra=[build.subpacket(2, struct.pack('>I', 1262309999), form=5)]),
                     dict(extra=[build.subpacket(100, b'unknown-but-legal'), build.subpacket(27, b'\x43'), build.subpacket(20, bytes([0x80, 0, 0, 0]) + struct.pack('>HH', 3, 2) + b'n@xvv', form=5)])]
